@@ -351,8 +351,12 @@ impl Utf8Offsets {
     pub fn texts() -> Vec<(u8, String)> {
         let mut v = Vec::new();
         for base in ["SELECT 1 FROM t WHERE x", "USE database_name", "use `quoted`;", "-- comment text", "select @@version_comment limit 1"] {
-            for k in 0..=12usize.min(base.len()) {
-                for c in ["\u{e9}", "\u{20ac}", "\u{1F600}", "\u{a0}", "\u{85}"] {
+            // every offset of the first 12 bytes, and the very end of the text
+            for k in (0..=12usize.min(base.len())).chain(std::iter::once(base.len())) {
+                // letters, symbols, and the characters a "helpful" normalisation would drop or treat
+                // as white space: byte order mark, zero-width space, soft hyphen, line / paragraph
+                // separators, ideographic space, Mongolian vowel separator, a NUL
+                for c in ["\u{e9}", "\u{20ac}", "\u{1F600}", "\u{a0}", "\u{85}", "\u{feff}", "\u{200b}", "\u{ad}", "\u{2028}", "\u{2029}", "\u{3000}", "\u{180e}", "\u{0}"] {
                     let t = format!("{}{}{}", &base[..k], c, &base[k..]);
                     v.push((COM_QUERY, t.clone()));
                     if base.starts_with("SELECT") {
